@@ -6,12 +6,13 @@ CONSTANTS
   Home <- LHome
   InitSeq <- LInit
   InitTok <- LInitTok
+  InitRaw = {}
   HasLF0 = TRUE
   HasAT0 = FALSE
   Slack = 2
   FU = 32
   Ver = 1
-  MaxCalls = 6
+  MaxCalls = 5
   MCToks = {"t1"}
 SPECIFICATION MCFairSpec
 INVARIANT SlotType TableInv ProbeBounded TablesDisjointFromData NoDamage
